@@ -33,6 +33,14 @@ use crate::util::{self, errno_name, lockp, Rng};
 
 pub struct TeardownComp;
 
+#[allow(dead_code)]
+enum StdHandle {
+    None,
+    In(a10::io::Stdin),
+    Out(a10::io::Stdout),
+    Err(a10::io::Stderr),
+}
+
 /// Type-erased future under test. `None` = Pending; `Some((line, buf))`.
 trait Pollable {
     fn poll(&mut self, cx: &mut Context<'_>) -> Option<(String, Option<ReadBuf>)>;
@@ -152,7 +160,10 @@ struct Mapping {
 
 struct TdCase {
     ring: Option<Ring>,
-    clones: Vec<Option<SubmissionQueue>>,
+    /// An extra `SubmissionQueue` clone; some come with a standard-stream handle made from a clone of
+    /// it (`stdin`/`stdout`/`stderr`: another owner of the ring's shared state that must release it
+    /// when dropped, without ever closing its descriptor), dropped together with it.
+    clones: Vec<Option<(SubmissionQueue, StdHandle)>>,
     fds: Vec<FdObj>,
     pool: Option<ReadBufPool>,
     had_pool: bool,
@@ -296,7 +307,18 @@ impl TdCase {
         }
         let mut ring = cfg.build().expect("ring build");
         let rfd = simk::with_sim(|s| *s.rings.keys().next().unwrap());
-        let clones: Vec<Option<SubmissionQueue>> = (0..ncl).map(|_| Some(ring.sq())).collect();
+        let clones: Vec<Option<(SubmissionQueue, StdHandle)>> = (0..ncl)
+            .map(|k| {
+                let sq = ring.sq();
+                let h = match (k as u64 + cqh as u64) % 4 {
+                    0 => StdHandle::None,
+                    1 => StdHandle::In(a10::io::stdin(sq.clone())),
+                    2 => StdHandle::Out(a10::io::stdout(sq.clone())),
+                    _ => StdHandle::Err(a10::io::stderr(sq.clone())),
+                };
+                Some((sq, h))
+            })
+            .collect();
         let mut fds = Vec::new();
         for k in 0..nfd {
             if dmask & (1 << k) != 0 {
@@ -906,7 +928,7 @@ impl TdCase {
                 let (obj, state): (Box<dyn Pollable>, Option<track::Block>) = if *kind == "unlink" {
                     let sq = match (&self.ring, self.clones.iter().flatten().next()) {
                         (Some(r), _) => r.sq(),
-                        (None, Some(c)) => c.clone(),
+                        (None, Some(c)) => c.0.clone(),
                         (None, None) => return bad(),
                     };
                     let path = PathBuf::from("x");
